@@ -166,6 +166,24 @@ def _check(pid, P, tier, seed, bdir, ev):
             undecided.append('unit %s: Verus rejected the unit (not a verification verdict): %s%s' % (uname, msg, loc))
             open(os.path.join(VERIF, 'build', 'last_undecided_%s.txt' % pid), 'w').write(r.raw_stderr[-20000:])
             continue
+        # trusted text: assumed functions and files outside the units must be the text the contracts were written for
+        tpath = os.path.join(VERIF, 'contracts', 'trusted_text.lock.json')
+        tlock = json.load(open(tpath)) if os.path.exists(tpath) else None
+        changed_assumed = set()
+        if tlock:
+            for f in meta['functions']:
+                want = tlock['assumed_functions'].get(f['key'])
+                if want and f['mode'] == 'assumed' and 'E9' not in f.get('rules', []) and f.get('norm_sha') != want:
+                    changed_assumed.add(f['key'])
+            for rel, plist in cfg.get('trusted_files', {}).items():
+                if pid not in plist or rel not in tlock['files']:
+                    continue
+                try:
+                    cur = EX.norm_sha(open(os.path.join(REPO, rel)).read())
+                except Exception as e:
+                    cur = 'unreadable: %s' % e
+                if cur != tlock['files'][rel]:
+                    undecided.append('trusted file %s changed (not verified by any unit; the proof of %s assumes its behaviour)' % (rel, pid))
         # which functions serve this property
         tags = lemma_tags(cfg)
         pids = set([pid] + list(P.get('include', [])))   # a property may rest on the functions/lemmas of others (e.g. C01 on key generation)
@@ -200,6 +218,8 @@ def _check(pid, P, tier, seed, bdir, ev):
                 trusted.append('contract assumed in unit %s, verified in the unit that owns the crate (E9): %s' % (uname, VR.short(key)))
             else:
                 trusted.append('assumed contract (not verified here): %s' % VR.short(key))
+                if key in changed_assumed:
+                    undecided.append('the text of %s changed but its contract is only ASSUMED: no longer trusted' % VR.short(key))
         for nm, t in sorted(lemma_serving.items()):
             st = r.fn_status.get(nm)
             nobl = r.obligations.get(nm, 0)
@@ -256,6 +276,30 @@ def _check(pid, P, tier, seed, bdir, ev):
                     undecided.append('kani negative control %s unexpectedly passed (vacuity guard)' % h['name'])
         if kani.get('error'):
             undecided.append('kani layer: ' + kani['error'])
+    # sampled validation of assumed contracts on the REAL ciphersuite crates (labelled as such, never counted as proved)
+    if P.get('rt_always'):
+        import rtcheck
+        res = rtcheck.search(pid, 'assumption validation', seed, budget_s=P.get('rt_budget', 10)) if rtcheck.available() else None
+        if res is None:
+            undecided.append('concrete validation runner (rt/) unavailable')
+        else:
+            m = re.search(r'RT-OK property=\S+ cases=(\d+)', res.get('stdout_tail', ''))
+            cov['concrete_validation'] = dict(what=P.get('rt_what', ''), cmd=res.get('cmd'), found=res.get('found'), cases=int(m.group(1)) if m else None,
+                                              label='sampled (not a proof)', tail=res.get('stdout_tail', '')[-400:])
+            cmds.append(res.get('cmd', ''))
+            if res.get('found'):
+                f = VR.Failure()
+                sc = res['case'].get('scenario', '?') if isinstance(res['case'], dict) else '?'
+                f.obligation = 'concrete validation :: %s' % sc
+                f.message = 'an assumed contract is violated by the real code on a concrete input'
+                f.rendered = json.dumps(res['case'], indent=1)[:6000]
+                f.fn_key = None
+                f.kani = dict(counterexample=res['case'])
+                failures_all.append(f)
+            elif res.get('error') or res.get('rc') != 0:
+                undecided.append('concrete validation: %s' % (res.get('error') or ('runner exit %s' % res.get('rc'))))
+            else:
+                cov['evaluations'] = cov['concrete_validation']['cases'] or 0
     cov['obligations'] = total_obl
     cov['discharged'] = total_dis
     cov['checker_cmd'] = ' ;; '.join(cmds)
@@ -290,6 +334,7 @@ def _check(pid, P, tier, seed, bdir, ev):
         rc = 1
     ev['violations'] = len(seen)
     cov['failed_obligations'] = sorted(seen)
+    undecided = list(dict.fromkeys(undecided))
     if rc == 0 and undecided:
         if concrete_fallback(pid, seed, ev, undecided):
             cov['undecided'] = undecided
